@@ -189,7 +189,8 @@ def object_schema(draw, cfg, refs, depth):
         s["title"] = draw(st.sampled_from(SAFE_TITLES))
     if cfg.descriptions and draw(st.integers(0, 3)) == 0:
         s["description"] = draw(st.sampled_from(DESCRIPTIONS))
-    names = draw(st.lists(st.sampled_from(PROP_NAMES + ["items", "0", "anyOf", "é"]), min_size=0, max_size=3, unique=True))
+    names = draw(st.lists(st.sampled_from(PROP_NAMES + ["items", "0", "anyOf", "é", "examples", "$comment", "definitions",
+                                                          "default", "title"]), min_size=0, max_size=3, unique=True))
     if names:
         s["properties"] = {n: draw(sub_schema(cfg, refs, depth)) for n in names}
         req = draw(st.lists(st.sampled_from(names), max_size=2, unique=True))
